@@ -151,6 +151,27 @@ fn record_write(this: &mut Reassembler, offset: VarInt, data: &[u8], is_fin: boo
     Ok(())
 }
 
+// Second, deeper cut: Reassembler::write_at / write_at_fin / write_reader and the cursor logic
+// (Request::new, skip_until, Cursors::handle_reader_fin) run for real; only the private slot-list
+// part write_reader_impl is replaced.  It records the (trimmed) segment it is handed.
+#[cfg(kani)]
+static mut WR_END: u64 = 0;
+
+#[cfg(kani)]
+fn stub_write_reader_impl<R>(_this: &mut Reassembler, reader: &mut R) -> Result<(), R::Error>
+where
+    R: buffer::Reader + ?Sized,
+{
+    unsafe {
+        WR_CALLS += 1;
+        WR_OFF = reader.current_offset().as_u64();
+        WR_LEN = reader.buffered_len();
+        WR_FIN = reader.final_offset().is_some();
+        WR_END = reader.final_offset().map_or(UNKNOWN, |v| v.as_u64());
+    }
+    Ok(())
+}
+
 #[cfg(kani)]
 fn stub_write_at(this: &mut Reassembler, offset: VarInt, data: &[u8]) -> Result<(), buffer::Error> {
     record_write(this, offset, data, false)
@@ -373,13 +394,22 @@ fn any_frame<'a>(payload: &'a [u8; 4]) -> (StreamRef<'a>, u64, usize, bool) {
     (frame, off.as_u64(), len, is_fin)
 }
 
-// ---------------------------------------------------------------------------------------------
-// C04-O4a: one STREAM frame on a stream in the Receiving state (Recv / Size Known of RFC 9000 3.2)
-#[cfg_attr(kani, kani::proof)]
-#[cfg_attr(kani, kani::unwind(6))]
-#[cfg_attr(kani, kani::stub(Reassembler::write_at, stub_write_at))]
-#[cfg_attr(kani, kani::stub(Reassembler::write_at_fin, stub_write_at_fin))]
-fn verif_rx_on_data_receiving() {
+// The step is written once and expanded into both harnesses.  `$deep` says which cut is active under
+// Kani (decides how the recorded values are read); `$cov` is kani::cover for the first harness and
+// nothing for the second, which keeps only two covers: its counterexample playback (one trace per
+// cover) otherwise exceeds the 16 GB given to a check.
+macro_rules! cov_on {
+    ($c:expr, $t:literal) => {
+        kani::cover!($c, $t)
+    };
+}
+macro_rules! cov_off {
+    ($c:expr, $t:literal) => {};
+}
+macro_rules! on_data_receiving {
+    ($deep:literal, $cov:ident) => {{
+    #[allow(unused_variables)]
+    let deep: bool = $deep;
     validate_layout();
     let mut f = any_stream(RECEIVING);
     let (b, c, w) = (f.b, f.c, f.w);
@@ -423,7 +453,7 @@ fn verif_rx_on_data_receiving() {
     let calls = unsafe { WR_CALLS };
 
     if overflow || over_stream || over_conn {
-        kani::cover!(!overflow && over_stream && !over_conn, "beyond the stream limit only");
+        $cov!(!overflow && over_stream && !over_conn, "beyond the stream limit only");
         kani::cover!(!overflow && !over_stream && over_conn, "beyond the connection limit only");
         assert!(matches!(&r, Err(e) if is_code(e, transport::Error::FLOW_CONTROL_ERROR)));
         // the offending data never reaches the buffer and is not accounted
@@ -434,10 +464,12 @@ fn verif_rx_on_data_receiving() {
         assert!(f.s.state == ReceiveStreamState::Receiving);
         assert!(events.read_wake.is_none());
     } else if fin_violation {
-        kani::cover!(is_fin && !known, "FIN below data already received");
-        kani::cover!(!is_fin, "data beyond the known final size");
+        $cov!(is_fin && !known, "FIN below data already received");
+        $cov!(!is_fin, "data beyond the known final size");
         assert!(matches!(&r, Err(e) if is_code(e, transport::Error::FINAL_SIZE_ERROR)));
         // nothing is stored, the final size does not change
+        #[cfg(kani)]
+        assert!(!deep || calls == 0);
         assert!(post == c);
         assert!(books_unchanged(&f));
         assert!(f.s.state == ReceiveStreamState::Receiving);
@@ -449,8 +481,18 @@ fn verif_rx_on_data_receiving() {
         #[cfg(kani)]
         unsafe {
             assert!(calls == 1);
-            assert!(WR_OFF == off && WR_LEN == len && WR_FIN == is_fin);
-            assert!(WR_PTR == payload.as_ptr() as usize);
+            if deep {
+                // ... trimmed to what the application has not consumed yet
+                if end > c.start {
+                    assert!(WR_OFF == off.max(c.start) && WR_OFF + WR_LEN as u64 == end);
+                } else {
+                    assert!(WR_LEN == 0);
+                }
+                assert!(WR_FIN == is_fin && (!is_fin || WR_END == end));
+            } else {
+                assert!(WR_OFF == off && WR_LEN == len && WR_FIN == is_fin);
+                assert!(WR_PTR == payload.as_ptr() as usize);
+            }
         }
         // every new byte is charged once to the stream and once to the connection
         let acq1 = if known { b.acquired } else { b.acquired + additional };
@@ -460,7 +502,7 @@ fn verif_rx_on_data_receiving() {
         let fin1 = if is_fin { end } else { c.fin };
         if is_fin && end == c.start {
             // FIN of a stream whose data was all consumed already: Data Read, reader released
-            kani::cover!(parked, "FIN completes a fully consumed stream with a parked reader");
+            $cov!(parked, "FIN completes a fully consumed stream with a parked reader");
             assert!(f.s.state == ReceiveStreamState::DataRead);
             assert!(post == Cur { start: 0, max_recv: 0, fin: UNKNOWN });
             assert!(events.read_wake.is_some() == parked);
@@ -481,6 +523,25 @@ fn verif_rx_on_data_receiving() {
     assert!(f.s.flow_controller.read_window_sync.latest_value().as_u64() == b.adv());
     core::mem::forget(events);
     core::mem::forget(f);
+    }};
+}
+
+// ---------------------------------------------------------------------------------------------
+// C04-O4a: one STREAM frame on a stream in the Receiving state (Recv / Size Known of RFC 9000 3.2)
+#[cfg_attr(kani, kani::proof)]
+#[cfg_attr(kani, kani::unwind(6))]
+#[cfg_attr(kani, kani::stub(Reassembler::write_at, stub_write_at))]
+#[cfg_attr(kani, kani::stub(Reassembler::write_at_fin, stub_write_at_fin))]
+fn verif_rx_on_data_receiving() {
+    on_data_receiving!(false, cov_on);
+}
+
+// C04-O4a2: the same step with the deeper cut (real cursor logic of the reassembler)
+#[cfg_attr(kani, kani::proof)]
+#[cfg_attr(kani, kani::unwind(6))]
+#[cfg_attr(kani, kani::stub(Reassembler::write_reader_impl, stub_write_reader_impl))]
+fn verif_rx_on_data_receiving_real_cursors() {
+    on_data_receiving!(true, cov_off);
 }
 
 // ---------------------------------------------------------------------------------------------
@@ -823,67 +884,17 @@ fn verif_rx_transmit_sync() {
     core::mem::forget(f);
 }
 
-// PROBE-BEGIN (throw-away measurements, removed before hand-over)
-#[cfg(kani)]
-fn stub_impl_probe<R>(_this: &mut Reassembler, reader: &mut R) -> Result<(), R::Error>
-where
-    R: buffer::Reader + ?Sized,
-{
-    unsafe {
-        WR_CALLS += 1;
-        WR_OFF = reader.current_offset().as_u64();
-        WR_LEN = reader.buffered_len();
-    }
-    Ok(())
-}
-
-#[cfg_attr(kani, kani::proof)]
-#[cfg_attr(kani, kani::unwind(6))]
-#[cfg_attr(kani, kani::stub(Reassembler::write_reader_impl, stub_impl_probe))]
-fn verif_rx_probe_private_stub() {
-    let mut f = any_stream(RECEIVING);
-    #[cfg(kani)]
-    unsafe {
-        WR_CALLS = 0;
-    }
-    let payload: [u8; 4] = kani::any();
-    let (frame, _off, _len, _is_fin) = any_frame(&payload);
-    let mut events = StreamEvents::new();
-    let r = f.s.on_data(&frame, &mut events);
-    kani::cover!(r.is_ok(), "accepted");
-    #[cfg(kani)]
-    assert!(r.is_err() || unsafe { WR_CALLS } == 1);
-    core::mem::forget(events);
-    core::mem::forget(f);
-}
-
-#[cfg_attr(kani, kani::proof)]
-#[cfg_attr(kani, kani::unwind(6))]
-fn verif_rx_probe_real_write() {
-    let mut f = any_stream(RECEIVING);
-    let payload: [u8; 4] = kani::any();
-    let (frame, _off, _len, _is_fin) = any_frame(&payload);
-    let mut events = StreamEvents::new();
-    let r = f.s.on_data(&frame, &mut events);
-    kani::cover!(r.is_ok(), "accepted");
-    assert!(r.is_err() || f.s.receive_buffer.final_size().is_some() == (f.c.fin != UNKNOWN || frame.is_fin));
-    core::mem::forget(events);
-    core::mem::forget(f);
-}
-// PROBE-END
-
 // ---- generated by tools/fixup.py: native replay entry ----
 #[cfg(not(kani))]
 #[test]
 fn verif_replay() {
     kani::replay(&[
         ("verif_rx_on_data_receiving", verif_rx_on_data_receiving),
+        ("verif_rx_on_data_receiving_real_cursors", verif_rx_on_data_receiving_real_cursors),
         ("verif_rx_on_data_closed", verif_rx_on_data_closed),
         ("verif_rx_on_reset", verif_rx_on_reset),
         ("verif_rx_on_reset_below_received_finding_witness", verif_rx_on_reset_below_received_finding_witness),
         ("verif_rx_stop_sending", verif_rx_stop_sending),
         ("verif_rx_transmit_sync", verif_rx_transmit_sync),
-        ("verif_rx_probe_private_stub", verif_rx_probe_private_stub),
-        ("verif_rx_probe_real_write", verif_rx_probe_real_write),
     ]);
 }
